@@ -80,6 +80,18 @@ def cases():
         out.append(('duration("%s") = duration(string(duration("%s")))' % (s, s), 'true'))
     for s in ('P', 'PT', 'P1H', 'PT1D', 'P1M2Y', 'P1Y2D', 'P1.5Y', 'PT1.5H', '1Y', 'P1S', 'PT1S2M', 'P-1Y', 'PT1,5S', 'P1YT', 'p1y', 'P 1Y'):
         out.append(('duration("%s")' % s, 'null'))
+    # components of durations agree in sign and size with the total length (C15), and date-and-time literals range-check every field (C14)
+    for (d, comps) in (('P1Y3M', {'years': 1, 'months': 3}), ('-P1Y3M', {'years': -1, 'months': -3}), ('P14M', {'years': 1, 'months': 2}), ('-P2M', {'years': 0, 'months': -2}),
+                       ('-P25M', {'years': -2, 'months': -1}), ('P1DT2H3M4S', {'days': 1, 'hours': 2, 'minutes': 3, 'seconds': 4}),
+                       ('PT36H', {'days': 1, 'hours': 12, 'minutes': 0, 'seconds': 0}), ('PT90M', {'days': 0, 'hours': 1, 'minutes': 30, 'seconds': 0}), ('PT3661S', {'hours': 1, 'minutes': 1, 'seconds': 1})):
+        # (whether the components of a NEGATIVE days-and-time duration carry the sign is not stated by the property: the code answers magnitudes)
+        for (c, v) in comps.items():
+            out.append(('duration("%s").%s' % (d, c), str(v)))
+    for s in ('2021-03-04T10:20:60', '2021-03-04T10:20:75Z', '2021-03-04T10:20:99+01:00', '2021-03-04T10:60:00', '2021-03-04T10:61:30Z', '2021-03-04T24:00:00', '2021-03-04T25:10:10',
+              '2021-03-04T10:20:60@Europe/Warsaw', '2021-13-04T10:20:30', '2021-03-32T10:20:30', '2021-02-29T10:20:30', '2021-00-10T10:20:30', '2021-03-00T10:20:30'):
+        out.append(('date and time("%s")' % s, 'null'))
+    for s in ('2021-03-04T10:20:59', '2021-03-04T23:59:59Z', '2021-03-04T00:00:00+01:00', '2020-02-29T10:20:30'):
+        out.append(('string(date and time("%s"))' % s, '"%s"' % s))
     # ---- B: date(y, m, d)
     for y in (1, 1900, 2000, 2020, 2021, 999999999):
         for m in (-1, 0, 1, 2, 12, 13, 255, 256, 257, 258, 268, 524, 65537):
